@@ -46,7 +46,7 @@ func TestC14(t *testing.T) {
 	f := peer.Fix()
 	now := peer.Now
 	conds := []certCond{
-		{"valid", []string{"good.example.test", "alt.example.test"}, true, now.AddDate(-1, 0, 0), now.AddDate(1, 0, 0)},
+		{"valid", []string{"good.example.test", "alt.example.test", "192.0.2.7", "2001:db8::7"}, true, now.AddDate(-1, 0, 0), now.AddDate(1, 0, 0)},
 		{"wrong-name", []string{"other.example.test"}, true, now.AddDate(-1, 0, 0), now.AddDate(1, 0, 0)},
 		{"untrusted", []string{"good.example.test", "alt.example.test"}, false, now.AddDate(-1, 0, 0), now.AddDate(1, 0, 0)},
 		{"expired", []string{"good.example.test", "alt.example.test"}, true, now.AddDate(-2, 0, 0), now.AddDate(0, 0, -10)},
@@ -71,6 +71,10 @@ func TestC14(t *testing.T) {
 		{"star", "nomatch.example.test", "*"},
 		{"override-match", "nomatch.example.test", "alt.example.test"},
 		{"override-mismatch", "good.example.test", "nomatch.example.test"},
+		// verification names that never go on the wire (no server_name for IP literals)
+		{"ip-literal-match", "192.0.2.7", ""},
+		{"ip-literal-mismatch", "192.0.2.9", ""},
+		{"ip6-literal-mismatch", "2001:db8::9", ""},
 	}
 	var targets []Target
 	if mon.Thorough() {
@@ -81,6 +85,12 @@ func TestC14(t *testing.T) {
 			targets = append(targets, Target{Name: p.Name, ID: p.ID})
 		}
 		targets = append(targets, Target{Name: "Golang", ID: tls.HelloGolang})
+	}
+	// the same with the server_name extension removed by the caller (documented edit): the
+	// name to verify is then not on the wire at all
+	for _, n := range []string{"Chrome_120", "Firefox_105"} {
+		p := ParrotByName(n)
+		targets = append(targets, Target{Name: p.Name + "-noSNI", ID: p.ID, Pre: func(u *tls.UConn) error { return u.RemoveSNIExtension() }})
 	}
 	decide := func(c certCond, ns nameSetting, skipTime, skipVerify bool, at time.Time, verifyName string) bool {
 		if skipVerify {
@@ -125,7 +135,9 @@ func TestC14(t *testing.T) {
 								if sv && (mode != "fresh" || st) {
 									continue
 								}
-								if !mon.Thorough() && mode != "fresh" && k%3 != 0 {
+								if !mon.Thorough() && mode != "fresh" && k%3 != 0 && c.name != "expired" && c.name != "not-yet-valid" {
+									// quick tier: a third of the resumed cells, but every cell whose certificate
+									// is outside its validity period (the cached-certificate re-check)
 									continue
 								}
 								jobs = append(jobs, job{tg, maxv, c, ns, st, sv, mode})
